@@ -214,34 +214,56 @@ func cmdCheck(verifDir, repoDir string, args []string) int {
 			o.shortFirst = true
 		}
 	}
-	dischargeAll(all, cfg)
-	// second chance: obligations that only timed out are retried with the machine to
-	// themselves (two at a time, longer limits); solver answers under full load are not final
-	var retry []*Obl
-	definite := false
-	for _, o := range all {
-		if o.Verdict == "failed-unknown" && !o.shortFirst {
-			retry = append(retry, o)
+	pending := all
+	for pass := 0; pass < 8 && len(pending) > 0; pass++ {
+		dischargeAll(pending, cfg)
+		// second chance: obligations that only timed out are retried with the machine to
+		// themselves (two at a time, longer limits); solver answers under full load are not final
+		var retry []*Obl
+		definite := false
+		for _, o := range pending {
+			if o.Verdict == "failed-unknown" && !o.shortFirst {
+				retry = append(retry, o)
+			}
+			if o.Verdict == "failed-sat" {
+				definite = true
+			}
 		}
-		if o.Verdict == "failed-sat" {
-			definite = true
+		if definite && tier != "thorough" {
+			retry = nil // a solver produced a counter-model: the run has failed whatever a retry says
 		}
-	}
-	if definite && tier != "thorough" {
-		retry = nil // a solver produced a counter-model: the run has failed whatever a retry says
-	}
-	if len(retry) > 0 && len(retry) <= 6 {
-		c2 := *cfg
-		c2.workers = 3
-		c2.failFast = 0
-		c2.quickTO, c2.fallback = cfg.quickTO*2, cfg.fallback
-		for _, o := range retry {
+		if len(retry) > 0 && len(retry) <= 6 {
+			c2 := *cfg
+			c2.workers = 3
+			c2.failFast = 0
+			c2.quickTO, c2.fallback = cfg.quickTO*2, cfg.fallback
+			for _, o := range retry {
+				o.Verdict, o.Detail = "", ""
+			}
+			dischargeAll(retry, &c2)
+			for _, o := range retry {
+				o.Detail = "second attempt without load: " + o.Detail
+			}
+		}
+		// the quick tier stops early once a few obligations have failed; if the retry
+		// rescued every one of them, what was skipped must still be decided
+		stillFailed := false
+		var skipped []*Obl
+		for _, o := range all {
+			if strings.HasPrefix(o.Verdict, "failed") && !o.shortFirst {
+				stillFailed = true
+			}
+			if o.Verdict == "not-run" {
+				skipped = append(skipped, o)
+			}
+		}
+		if stillFailed || len(skipped) == 0 {
+			break
+		}
+		for _, o := range skipped {
 			o.Verdict, o.Detail = "", ""
 		}
-		dischargeAll(retry, &c2)
-		for _, o := range retry {
-			o.Detail = "second attempt without load: " + o.Detail
-		}
+		pending = skipped
 	}
 
 	// classify
@@ -309,7 +331,7 @@ func cmdCheck(verifDir, repoDir string, args []string) int {
 			continue
 		case "not-run":
 			rep.notRun++
-			continue
+			continue // only possible next to a reported failure (see the loop above); checked below
 		case "conflict":
 			engineErrs = append(engineErrs, "solvers disagree on "+o.Name+" ("+o.Detail+")")
 			continue
